@@ -287,6 +287,38 @@ PROPS = {
         "require": {"pairs": 1000000, "paths.success": 300000, "paths.failed": 1000, "long.cases": 50, "origins.ball": 300},
         "assumptions": ["geometric adjacency is the neighbour relation of the statement (validated by C08)"],
     },
+    "C15": {
+        "sources": KIT + ["vf_poly.c", "mon_C15.c"],
+        "phases": [{"name": "main", "config": "asan-alloc"}],
+        "level": "exploration",
+        "level_text": "For thousands of generated well-formed polygons (same generator as C07: needles, holes, antimeridian, pentagons, sub-cell to hundreds of cells) and all four modes: exact set facts (no duplicates, nesting "
+                      "FULL<=CENTER<=OVERLAPPING<=OVERLAPPING_BBOX off the pole cells, the fill fits the announced size, capacity count-1 -> E_MEMORY_BOUNDS without overrun, invalid flags -> E_OPTION_INVALID, allocator ledger "
+                      "empty after every call) and three-valued membership: every FULL cell has centre and vertices inside; every candidate cell (BBOX output + independent grid) classified definitely-interior must be in FULL, "
+                      "definitely-overlapping in OVERLAPPING, definitely-disjoint not in OVERLAPPING. A classification is made only where planar and great-circle readings of the cell agree with 2% / 0.5% margins; the rest is ambiguous and counted.",
+        "level_note": "Trusted base: planar geometry of the oracle (segment crossing/distance, point-in-polygon) in long double; cells within the margins of the polygon boundary are not judged for membership. Pole cells are excluded as the statement says.",
+        "technique": "runtime monitoring: set-algebra monitors plus a three-valued geometric membership oracle, allocator ledger, under ASan/UBSan with exact-size buffers",
+        "evaluations": ["polygons"],
+        "rule": "a case is one generated polygon x 4 containment modes (+ short-capacity and invalid-flag calls). Non-trivial = OVERLAPPING returns strictly more cells than FULL (the polygon boundary cuts cells); distinct by seed.",
+        "require": {"polygons": 1000, "cells.definitely_interior": 20000, "cells.definitely_overlapping": 20000, "cells.definitely_disjoint": 50000, "full.cells_checked": 20000, "capacity.short_calls": 1000, "flags.invalid_calls": 1000,
+                    "polygons.antimeridian": 100, "polygons.with_holes": 200},
+        "assumptions": ["margins delta=2%, delta'=0.5% of the cell width separate the planar and great-circle readings of a cell (DESIGN.md §6)"],
+    },
+    "C16": {
+        "sources": KIT + ["mon_C16.c"],
+        "phases": [{"name": "main", "config": "asan-alloc"}],
+        "level": "exploration",
+        "level_text": "Every 1-disk and every neighbour pair of all cells of res 0-2 (quick) / 0-3 (thorough), plus thousands of generated sets at all resolutions (1-3 disks of radius up to 9/16 with 0-45% of the cells removed at "
+                      "random, around pentagons, on the antimeridian, touching or separate) are outlined; the result must have one polygon per edge-connected component (union-find on geometric adjacency), the number of loops the "
+                      "Euler characteristic of the set demands, exactly as many vertices as the outline has boundary points, first loop counter-clockwise and the others clockwise, >=3 vertices per loop, every vertex a boundary vertex of "
+                      "an input cell (1e-12 rad), enclosed area = sum of cell areas (1e-7), and an empty allocator ledger after destroyLinkedMultiPolygon / after an error. Sets containing a pole cell are skipped as the statement says.",
+        "level_note": "Trusted base: geometric adjacency, shared-stretch matching (vf_kit.c), canonical vertex indexes (validated by C11) for the Euler count. Failures caused by the known vertex-hash defect F2 are matched by exact key in the "
+                      "exhaustive corpus and by a mechanism signature elsewhere.",
+        "technique": "runtime monitoring: topological reference (components, Euler characteristic, outline size), orientation/area monitors and allocator ledger, under ASan/UBSan",
+        "evaluations": ["sets"],
+        "rule": "a case is one set of distinct same-resolution cells. Non-trivial = more than one cell; distinct by hash of the sorted set.",
+        "require": {"sets": 20000, "corpus.origins": 6000, "sets.with_holes": 50, "sets.multi_component": 50, "cells_in": 200000},
+        "assumptions": ["three cells meet at every corner, so outline loops are simple and 2-(V-E+F) counts them"],
+    },
     "C17": {
         "sources": KIT + ["vf_poly.c", "mon_C17.c"],
         "phases": [{"name": "main", "config": "asan-alloc", "aux": "plain-so"}],
